@@ -191,6 +191,26 @@ func TestC08Session(t *testing.T) {
 				}
 			}
 		}
+		// a link that is re-pointed between two requests (log rotation's "current" link): every request is judged by what
+		// the path resolves to at that moment
+		hot := filepath.Join(root, "pub/hot")
+		for step, target := range []string{"a.log", "../priv/key.txt", "a.log"} {
+			os.Remove(hot)
+			os.Symlink(target, hot)
+			resolved := map[string]string{"a.log": "pub/a.log", "../priv/key.txt": "priv/key.txt"}[target]
+			wl := []string{}
+			if served[resolved] {
+				wl = append(wl, resolved)
+			}
+			got, problem := c08sSession(u, hot)
+			evals++
+			if problem != "" || strings.Join(got, "|") != strings.Join(wl, "|") {
+				if len(bads) < 100 {
+					bads = append(bads, bad{rules, fmt.Sprintf("pub/hot -> %s (request %d of 3 for the same path)", target, step+1), got, wl, problem})
+				}
+			}
+		}
+		os.Remove(hot)
 	}
 	vWriteJSON(t, "VERIF_OUT", map[string]interface{}{"evaluations": evals, "bad": bads})
 }
